@@ -93,7 +93,7 @@ class C10(Prop):
         "gam_sxp_textbook_laws", "gam_sxp_code_vs_textbook", "gam_sxp_code_close", "mixture_full_laws",
         "mixture_sample_is_component_inverse", "transformed_samples", "sampler_primitive_arguments",
         "gam_sxp_inverse_laws", "mixgev_log_versions", "hxp_inverse_laws", "mixgev_code_close_everywhere", "inverse_right_and_samples",
-        "bisection_total_generic", "hxp_invcdf_total", "sxp_gam_invcdf_total_partial", "mixgev_invcdf_total", "gam_sample_generated", "mixture_log_versions", "cdf_limits_wei_gev_mixgev", "mixgev_inverse_laws", "bisection_fuel_covers_binary64", "incomplete_gamma_series_converges")]
+        "bisection_total_generic", "hxp_invcdf_total", "sxp_gam_invcdf_total_partial", "mixgev_invcdf_total", "gam_sample_generated", "mixture_log_versions", "cdf_limits_wei_gev_mixgev", "mixgev_inverse_laws", "bisection_fuel_covers_binary64", "incomplete_gamma_series_converges", "hxp_invcdf_at_driver_fuel", "mixgev_invcdf_total_unconditional")]
     claimed = True
     technique = ("Lean 4 proof about the C functions translated from the working tree on every run (clang-14 AST -> Lean, polymorphic "
                  "over a numeric class): real-analysis theorems at the R instance, the same definitions executed at Float bit-for-bit "
@@ -116,8 +116,8 @@ class C10(Prop):
                   "integrals P, Q is NOT proved (it enters gam_sxp_code_close as explicit epsilon, delta; monitored ~1e-9 / ~1e-7); erfc over R is the "
                   "mathematical erfc (Gaussian integral), that esl_stats_erfc agrees with it is L0; the loops of the four bisection inverses carry a fuel "
                   "argument, but from an explicit fuel on (BisectTotal.fuelRight/fuelGam/fuelMix: log3 of the reach + log2 of width/(1e-6 delta) passes) the "
-                  "translated functions return one fuel-independent value over R (hxp unconditionally; sxp/gam given the named hypothesis "
-                  "InvTotal.IncGammaPWithin; mixgev given two bracketing points of its cdf); esl_rnd_Gamma / esl_rnd_Gaussian / esl_rnd_DChoose are not modelled here: the samplers are functions of "
+                  "translated functions return one fuel-independent value over R (hxp and mixgev unconditionally; sxp/gam given the named hypothesis "
+                  "InvTotal.IncGammaPWithin); esl_rnd_Gamma / esl_rnd_Gaussian / esl_rnd_DChoose are not modelled here: the samplers are functions of "
                   "the variate (and component) they yield.")
     trusted_base = ["translate/c2lean.py: clang-14 JSON AST -> Lean (operators, libm names, literals from source text); tied by running every "
                     "translated function at Float against the C function bit-for-bit (harness/h_dist.c, ASan+UBSan build of the working tree)",
@@ -554,6 +554,20 @@ class C10(Prop):
                     for w in pn:
                         ops.append(op_f(pre + w, [p] + par))
             out.append({"name": "edge-nonfinite-%s" % fam, "ops": ops, "tie_only": True})
+        # invalid / non-finite PARAMETERS (each in turn 0, -1, +inf, -inf, NaN), x-functions only (the inverses' loops need a cdf):
+        # the model is the translated source, so these exercise the translator's comparison / NaN semantics, nothing else
+        for fam, par in (("exp", [0.0, 1.0]), ("gumbel", [0.0, 1.0]), ("gev", [0.0, 1.0, 0.5]), ("wei", [0.0, 1.0, 0.7]), ("sxp", [0.0, 1.0, 0.5]),
+                         ("gam", [0.0, 1.0, 2.0]), ("normal", [0.0, 1.0]), ("lognormal", [0.0, 1.0])):
+            pre, npar, fx, fp, xn, pn = R.FAMILY[fam]
+            ops = []
+            for j in range(len(par)):
+                for bad in (0.0, -1.0, INF, -INF, NAN):
+                    q = list(par)
+                    q[j] = bad
+                    for x in (0.5, 2.0, -1.0):
+                        for w in xn:
+                            ops.append(op_f(pre + w, [x] + q))
+            out.append({"name": "edge-badparam-%s" % fam, "ops": ops, "tie_only": True})
         ops = []
         for x in (INF, -INF, NAN, 0.0):
             for w in ("pdf", "logpdf", "cdf", "logcdf", "surv", "logsurv"):
